@@ -629,6 +629,143 @@ def gen_oracle_only(r):
 
 
 # ---------------------------------------------------------------------------------------------
+# xsl:copy / xsl:copy-of of nodes of a SOURCE document whose namespaces are re-bound at several depths
+# (oracle only; expected expanded names are read off the source by the same expat reader)
+
+SRC_URIS = ["u4", "u5", "u6", "u7"]
+
+
+def gen_source(r):
+    """returns (xml text, number of elements). Element local names e0, e1, ... are unique."""
+    cnt = [0]
+
+    def el(scope, depth):
+        sc = dict(scope)
+        decls = []
+        for p in r.sample(["p", "q", ""], r.choice([0, 1, 1, 2, 3])):
+            u = r.choice(SRC_URIS)
+            if p == "" and r.random() < 0.3:
+                u = ""                                   # xmlns="" (undeclaration, or a no-op at the top)
+            decls.append((p, u))
+            sc[p] = u
+        cands = [p for p in ("p", "q") if sc.get(p)]
+        pref = r.choice(cands) if cands and r.random() < 0.5 else ""
+        name = (pref + ":" if pref else "") + "e%d" % cnt[0]
+        cnt[0] += 1
+        attrs, seen = [], set()
+        if r.random() < 0.6:
+            attrs.append(("a", "u%d" % r.randrange(4, 13)))
+        for p in cands:
+            if r.random() < 0.5 and sc[p] not in seen:
+                seen.add(sc[p])
+                attrs.append((p + ":b", "u%d" % r.randrange(4, 13)))
+        body = ""
+        nk = 0 if depth >= 4 else r.choice([0, 1, 1, 2] if depth else [1, 2])
+        for _ in range(nk):
+            if r.random() < 0.2:
+                body += "t"
+            body += el(sc, depth + 1)
+        if r.random() < 0.2:
+            body += "t"
+        return "<%s%s%s>%s</%s>" % (name, nsattrs(decls), "".join(' %s="%s"' % a for a in attrs), body, name)
+
+    return el({}, 0), cnt[0]
+
+
+def want_of(e, deep=True):
+    return {"name": e["name"], "attrs": dict(e["attrs"]), "lre": False, "excl": set(),
+            "kids": [k if isinstance(k, str) else want_of(k) for k in e["kids"]] if deep else []}
+
+
+def find_local(tree, local):
+    for e in tree:
+        if isinstance(e, str):
+            continue
+        if e["name"][1] == local:
+            return e
+        f = find_local(e["kids"], local)
+        if f is not None:
+            return f
+    return None
+
+
+def src_prefixes(src, k):
+    """{(uri, local): prefix} of the prefixed attributes on element e<k> of the generated source text"""
+    m = re.search(r"<(?:[a-z]+:)?e%d\b([^>]*)>" % k, src)
+    out = {}
+    scope = {}
+    # prefixes in scope at e<k>: replay the declarations of the ancestors-or-self textually
+    pos = m.start()
+    stack, depth_decls = [], []
+    for t in re.finditer(r"<(/?)((?:[a-z]+:)?e\d+)([^>]*)>", src[:m.end()]):
+        if t.group(1):
+            stack.pop()
+        else:
+            stack.append(dict(re.findall(r'xmlns:([a-z]+)="([^"]*)"', t.group(3))))
+    for d in stack:
+        scope.update(d)
+    for pfx, l in re.findall(r'\b([a-z]+):([a-z]+)="', re.sub(r'xmlns:[a-z]+="[^"]*"', "", m.group(1))):
+        out[(scope.get(pfx), l)] = pfx
+    return out
+
+
+def gen_copy_case(r, cid):
+    src, n = gen_source(r)
+    tree, err = parse_ns(("<W>" + src + "</W>").encode())
+    assert err is None, (err, src)
+    k = r.randrange(n) if r.random() < 0.3 else r.randrange(n // 2, n)      # mostly inner elements
+    target = find_local(tree, "e%d" % k)
+    sel = "//*[local-name()='e%d']" % k
+    # the result context: nothing, the same prefixes bound identically or differently, a default namespace
+    w = r.choice(["plain", "p", "p", "default", "pname", "both"])
+    wns, wname = [], "o"
+    if w in ("p", "pname", "both"):
+        wns.append(("p", r.choice(SRC_URIS)))
+    if w in ("default", "both"):
+        wns.append(("", r.choice(SRC_URIS)))
+    if w == "both" and r.random() < 0.5:
+        wns.append(("q", r.choice(SRC_URIS)))
+    if w == "pname":
+        wname = "p:o"
+    wuri = dict(wns).get("p" if w == "pname" else "", "")
+    wrap = {"name": (wuri, "o"), "attrs": {}, "lre": False, "excl": set(), "kids": []}
+    mode = r.choice(["copyof", "copyof", "identity", "identity", "shallow", "attrs"])
+    top = ""
+    force = None
+    if mode == "copyof":
+        inner = '<xsl:copy-of select="%s"/>' % sel
+        wrap["kids"] = [want_of(target)]
+    elif mode == "identity":
+        inner = '<xsl:apply-templates select="%s" mode="i"/>' % sel
+        top = '<xsl:template match="@*|node()" mode="i"><xsl:copy><xsl:apply-templates select="@*|node()" mode="i"/></xsl:copy></xsl:template>'
+        wrap["kids"] = [want_of(target)]
+    elif mode == "shallow":
+        u = r.choice(SRC_URIS)
+        if r.random() < 0.5:
+            a = '<xsl:attribute name="c" namespace="%s">u9</xsl:attribute>' % u
+        else:
+            a = '<xsl:attribute name="%s:c" xmlns:%s="%s">u9</xsl:attribute>' % ((r.choice(["p", "q", "r"]),) * 2 + (u,))
+        inner = '<xsl:for-each select="%s"><xsl:copy>%s</xsl:copy></xsl:for-each>' % (sel, a)
+        e = want_of(target, deep=False)
+        e["attrs"] = {(u, "c"): "u9"}
+        wrap["kids"] = [e]
+    else:
+        inner = '<xsl:copy-of select="%s/@*"/>' % sel
+        wrap["attrs"] = dict(target["attrs"])
+        # finding KN9: a copied attribute node keeps its prefix and nothing declares it in the new parent;
+        # class: some attribute has a namespace that the result element does not bind to the SAME prefix
+        srcp = src_prefixes(src, k)
+        if any(u and dict(wns).get(srcp.get((u, l))) != u for (u, l) in target["attrs"]):
+            force = "KN9"
+    sheet = '<xsl:stylesheet version="1.0" xmlns:xsl="%s">%s<xsl:template match="/"><%s%s>%s</%s></xsl:template></xsl:stylesheet>' % (
+        XSL, top, wname, nsattrs(wns), inner, wname)
+    c = {"id": cid, "sheet": sheet, "source": src, "cls": "copy:" + mode, "want": [wrap], "sheet_obj": None}
+    if force:
+        c["force_known"] = force
+    return c
+
+
+# ---------------------------------------------------------------------------------------------
 # corpus: replays of the findings (stylesheet bodies; source <doc/>)
 
 def body_sheet(body, attrs=""):
@@ -759,7 +896,7 @@ def evaluate(ctx, cases, exe, model, known):
 
 def replay_text(o):
     c = o["case"]
-    return "# C14 oracle failure: %s\n# result: %s\n# replay: python3 check.py C14 --replay <this file> (the stylesheet below is applied to %s)\n%s\n" % (
+    return "# C14 oracle failure: %s\n# result: %s\n# replay: python3 check.py C14 --replay <this file> (the stylesheet below is applied to the source)\n#source: %s\n%s\n" % (
         o["what"], o.get("out", ""), c["source"], c["sheet"])
 
 
@@ -811,6 +948,8 @@ def run(ctx):
         for i in range(n // 10):
             sh, want = gen_oracle_only(ctx.rng)
             out.append(make_case("%so%d" % (tag, i), sh, "oracle-only", want=want, modelled=False))
+        for i in range(n // 5):
+            out.append(gen_copy_case(ctx.rng, "%sy%d" % (tag, i)))
         return out
 
     n = 1500 if not ctx.thorough else 12000
@@ -849,8 +988,10 @@ def run(ctx):
 
 def replay(ctx, path):
     core.build_lib("plain")
-    text = "".join(l for l in open(path) if not l.startswith("#"))
-    r = xsltrun.run([{"id": "replay", "sheet": text.strip(), "source": "<doc/>"}])["replay"]
+    lines = open(path).read().split("\n")
+    text = "".join(l for l in lines if not l.startswith("#"))
+    src = ([l[len("#source:"):].strip() for l in lines if l.startswith("#source:")] or ["<doc/>"])[0]
+    r = xsltrun.run([{"id": "replay", "sheet": text.strip(), "source": src}])["replay"]
     print(r)
     if r[0] == "ok":
         body = re.sub(rb'^<\?xml[^>]*\?>', b'', r[1])
